@@ -118,7 +118,10 @@ int __wrap_rand(void)
 	uint64_t n = t->rand_ctr++;
 	auto it = t->rand_pin.find(n);
 	if (it != t->rand_pin.end()) return it->second;
-	return (int)(splitmix64(t->rand_key ^ (n * 0x9e3779b97f4a7c15ull)) & 0x7fffffff);
+	uint64_t v = splitmix64(t->rand_key ^ (n * 0x9e3779b97f4a7c15ull));
+	if (((v >> 40) & 63) == 42) return RAND_MAX;          // rand() may return RAND_MAX (= INT_MAX with glibc): one call in 64 does here
+	if (((v >> 40) & 63) == 43) return 0;
+	return (int)(v & 0x7fffffff);
 }
 void __wrap_srand(unsigned s)
 {
